@@ -98,7 +98,7 @@ Fixpoint trace_f (maxp : Z) (s : sstate mkey (val unit Z)) (cs : list (call unit
 """
 
 
-def generate(ctx):
+def pin_cleanup_guard():
     """Anchored structural pin: in update_persisted_channel both clean-ups after the full-monitor write must
     sit inside `if let Ok(()) = write_status { ... }` (a proof obligation of C19_mup_faulty_crash_consistent:
     the model applies nothing when the write failed)."""
@@ -124,8 +124,48 @@ def generate(ctx):
     for call in ("cleanup_stale_updates_for_monitor_to(", "cleanup_in_range("):
         if call not in inside or seg.count(call) != inside.count(call):
             raise ValueError("C19 generate: `%s` is not (only) inside the `if let Ok(()) = write_status` guard" % call[:-1])
-    ctx.gen_meta = [{"pin": "cleanup guarded by write_status", "file": "lightning/src/util/persist.rs", "offset": a}]
-    return ctx.gen_meta
+    return {"pin": "cleanup guarded by write_status", "file": "lightning/src/util/persist.rs", "offset": a}
+
+
+def pin_version_after_callback():
+    """Anchored structural pin: in fs_store/common.rs `execute_locked_write` the per-key version advances
+    (`*last_written_version = version`) exactly once and only on the success path of the callback (the LExec
+    step of Model/FsStoreProto.v leaves l_last alone for an FFail operation)."""
+    src = open(os.path.join(core.REPO, "lightning-persister/src/fs_store/common.rs")).read()
+    a = src.find("fn execute_locked_write<")
+    if a < 0:
+        raise ValueError("C19 generate: `fn execute_locked_write` not found in fs_store/common.rs")
+    b = src.find("\n\tfn ", a + 10)
+    body = src[a:b if b > 0 else a + 2500]
+    code = "\n".join(l for l in body.split("\n") if not l.strip().startswith("//"))
+    asg = "*last_written_version = version"
+    if code.count(asg) != 1:
+        raise ValueError("C19 generate: expected exactly one `%s` in execute_locked_write, found %d" % (asg, code.count(asg)))
+    ia, ic = code.find(asg), code.find("callback()")
+    if ic < 0 or code.count("callback()") != 1:
+        raise ValueError("C19 generate: expected exactly one `callback()` in execute_locked_write")
+    between = code[ic:ia] if ia > ic else ""
+    norm = re.sub(r"\s+", "", between)
+    if not (norm == "callback().map(|_|{" or norm in ("callback()?;",)):
+        raise ValueError("C19 generate: `%s` is not on the success path of `callback()` (found between them: %r)" % (asg, between[:120] if between else "assignment precedes the callback"))
+    return {"pin": "last_written_version advances only after the callback succeeded", "file": "lightning-persister/src/fs_store/common.rs", "offset": a}
+
+
+PINS = [("pin:cleanup-guarded-by-write_status (persist.rs)", pin_cleanup_guard),
+        ("pin:version-advances-only-on-success (fs_store/common.rs)", pin_version_after_callback)]
+
+
+def generate(ctx):
+    metas, errs = [], []
+    for name, fn in PINS:
+        try:
+            metas.append(fn())
+        except (ValueError, OSError) as ex:
+            errs.append(str(ex))
+    ctx.gen_meta = metas
+    if errs:
+        raise ValueError("; ".join(errs))
+    return metas
 
 
 def parse_strs(v):
@@ -265,6 +305,8 @@ def fs_aseq(ctx, ver, seed, nscen):
     rc, lines = ctx.run_bin("h_fsstore", "", args=["aseq", ver, str(seed), str(nscen), d], timeout=600)
     scen = {}
     for l in rlines(lines):
+        if l.startswith("cap "):
+            ASEQ_CAP["immutable"] = l.strip().endswith("=1")
         if not l.startswith("A "):
             continue
         p = l.split()
@@ -277,9 +319,14 @@ def fs_aseq(ctx, ver, seed, nscen):
     return rc, scen
 
 
+ASEQ_CAP = {"immutable": False}
+
+
 def judge_aseq(sc, nkeys=2):
-    """KVStore contract: whatever the completion order, each key reflects the operations in ISSUE order:
-    after every completion the key holds the effect of the latest-issued completed write/remove."""
+    """KVStore contract with failures: whatever the completion order, each key reflects the operations in ISSUE
+    order: after every completion the key holds the effect of the latest-issued write/remove among those that
+    completed with Ok. An operation that returned Err (only the sabotaged ones, tagged :x / :i, may) leaves the
+    key as if it had never been issued; in particular it never makes an earlier-issued Ok operation vanish."""
     problems = []
     ops = sc["ops"]
     done = []
@@ -309,12 +356,16 @@ def judge_aseq(sc, nkeys=2):
             if st["res"] != want:
                 problems.append("list returned %s, expected %s" % (st["res"], want))
         elif st["res"] != "ok":
-            problems.append("operation %s failed: %s" % (ops[i], st["res"]))
-        done.append(i)
+            if st["res"] == "err" and len(p) > 3 and p[3] in ("x", "i"):
+                pass   # a sabotaged operation may fail; it then must have had no effect (checked below)
+            else:
+                problems.append("operation %s failed: %s" % (ops[i], st["res"]))
+        if not (p[0] in ("W", "D") and st["res"] != "ok"):
+            done.append(i)
         after = [state_of(k) for k in range(nkeys)]
         if st["state"] != after:
-            problems.append("after completing %s (issue index %d) the keys hold %s; the latest ISSUED completed operations give %s"
-                            % (ops[i], i, st["state"], after))
+            problems.append("after completing %s (issue index %d, result %s) the keys hold %s; the latest ISSUED operations that completed with Ok give %s"
+                            % (ops[i], i, st["res"], st["state"], after))
             break
     return problems
 
@@ -322,12 +373,15 @@ def judge_aseq(sc, nkeys=2):
 def aseq_coq(sc, nkeys=2):
     """FsStoreProto schedule: all issues (LFetch, LRef) in issue order, then one group per completion."""
     fops, idx = [], {}
+    failed = set(st["op"] for st in sc["steps"] if st["res"] == "err")
     for i, o in enumerate(sc["ops"]):
         p = o.split(":")
         if p[0] == "L":
             continue
         idx[i] = len(fops)
-        if p[0] == "W":
+        if i in failed and p[0] in "WD":
+            fops.append("Build_fop %s FFail" % p[1])
+        elif p[0] == "W":
             fops.append("Build_fop %s (FWrite %s)" % (p[1], p[2]))
         elif p[0] == "D":
             fops.append("Build_fop %s FRemove" % p[1])
@@ -349,10 +403,13 @@ def aseq_coq(sc, nkeys=2):
     return "run_steps [%s] finit [%s] [%s]" % ("; ".join(fops), "; ".join(groups), "; ".join(str(k) for k in range(nkeys)))
 
 
-def fs_amt(ctx, ver, seed, tasks, per, nkeys):
+def fs_amt(ctx, ver, seed, tasks, per, nkeys, sab=False):
+    """sab: a saboteur thread makes key files immutable for short windows; writes/removes that returned Err must
+    have had no effect (they are dropped from the history), everything else must still be linearizable."""
     d = os.path.join(ctx.tmp, "afsmt-%s-%d" % (ver, seed))
-    rc, lines = ctx.run_bin("h_fsstore", "", args=["amt", ver, str(seed), str(tasks), str(per), str(nkeys), d], timeout=600)
+    rc, lines = ctx.run_bin("h_fsstore", "", args=["amt", ver, str(seed), str(tasks), str(per), str(nkeys), d, "1" if sab else "0"], timeout=600)
     per_key, problems, nops = {}, [], 0
+    nerr = 0
     for l in rlines(lines):
         if not l.startswith("H "):
             continue
@@ -360,19 +417,24 @@ def fs_amt(ctx, ver, seed, tasks, per, nkeys):
         p = left.split()
         a, b, kind, k, arg = int(p[2]), int(p[3]), p[4], int(p[5]), p[6]
         nops += 1
+        if sab and res == "err" and kind in ("W", "D"):
+            nerr += 1
+            continue
         if res in ("torn", "err"):
             problems.append("async concurrent history: operation returned %s: %s" % (res, l))
         per_key.setdefault(k, []).append((a, b, kind, int(arg) if kind == "W" else None, res))
     for k, ops in per_key.items():
         if not lin_check_key(ops):
-            problems.append("async history of key %d is not linearizable to an atomic register (%d operations)" % (k, len(ops)))
+            problems.append("async history of key %d is not linearizable to an atomic register (%d operations%s)"
+                            % (k, len(ops), ", after dropping the %d writes/removes that returned Err" % nerr if sab else ""))
+    fs_amt.last_err = nerr
     return rc, nops, problems
 
 
 # ------------------------------------------------------------------ MonitorUpdatingPersister
-def mup_sync(ctx, seed, mp, npay, maxcrash, nfaults):
-    rc, lines = ctx.run_bin("h_mup", "", args=["sync", str(seed), str(mp), str(npay), str(maxcrash), str(nfaults)], timeout=1200)
-    out = {"calls": None, "ops": None, "crash": [], "summary": None, "panic": None, "faults": {}, "fattempts": {}}
+def mup_sync(ctx, seed, mp, npay, maxcrash, nfaults, finale=True):
+    rc, lines = ctx.run_bin("h_mup", "", args=["sync", str(seed), str(mp), str(npay), str(maxcrash), str(nfaults), "1" if finale else "0"], timeout=1200)
+    out = {"calls": None, "ops": None, "crash": [], "summary": None, "panic": None, "faults": {}, "fattempts": {}, "marks": {}, "final": []}
     for l in rlines(lines):
         if l.startswith("calls "):
             out["calls"] = l.split()[2:]
@@ -390,9 +452,38 @@ def mup_sync(ctx, seed, mp, npay, maxcrash, nfaults):
             p = l.split(" ", 3)
             sid = int(p[2].split("=")[1])
             out["fattempts"][sid] = [x.strip() for x in (p[3] if len(p) > 3 else "").split("|")]
+        elif l.startswith("mark "):
+            p = l.split()
+            out["marks"][p[1]] = int(p[3].split("=")[1])
+        elif l.startswith("final "):
+            out["final"].append(l)
         elif l.startswith("harness-panic"):
             out["panic"] = l
     return rc, out
+
+
+def judge_refused(o):
+    """Scenario finale: between the marks `refused-update` and `post-close-preimage` ChainMonitor handles an update
+    its monitor REFUSES (update_monitor -> Err): the persister must be handed the full monitor (update None), never
+    the refused update itself; afterwards the end state must recover to the ChainMonitor's own copy."""
+    problems = []
+    m = o["marks"]
+    if "refused-update" not in m or "post-close-preimage" not in m:
+        return ["finale marks missing: %s" % sorted(m)]
+    seg = o["calls"][m["refused-update"]:m["post-close-preimage"]]
+    if not seg:
+        problems.append("no persister call for the refused update")
+    for c in seg:
+        p = c.split(":")
+        if p[0] == "U" and p[1] != "-":
+            problems.append("an update REFUSED by update_monitor (id %s) was handed to the persister as an incremental update (%s): "
+                            "stored as such it can never be re-applied to the stored monitor" % (p[1], c))
+    if len(o["final"]) < 2:
+        problems.append("no final comparison with the ChainMonitor copy")
+    for l in o["final"]:
+        if l.strip().endswith("eq=0"):
+            problems.append("after the whole history, recovery does not return the ChainMonitor's in-memory monitor: " + l)
+    return problems
 
 
 def sels_of_attempts(per_call):
@@ -463,12 +554,13 @@ def run(ctx):
         ctx.write_evidence(LEVEL)
         return
     gen_err = None
-    try:
-        generate(ctx)
-        ctx.obligations.append(("pin:cleanup-guarded-by-write_status (persist.rs)", True, "anchored structural check"))
-    except Exception as ex:
-        gen_err = str(ex)
-        ctx.obligations.append(("pin:cleanup-guarded-by-write_status (persist.rs)", False, gen_err))
+    for name, fn in PINS:
+        try:
+            fn()
+            ctx.obligations.append((name, True, "anchored structural check"))
+        except (ValueError, OSError) as ex:
+            gen_err = (gen_err + "; " if gen_err else "") + str(ex)
+            ctx.obligations.append((name, False, str(ex)))
     okm, outm = ctx.coq_make(["Model/KV.vo", "Model/MUP.vo", "Model/FsStoreProto.vo", "Model/BlockSync.vo"])
     proved = ctx.prove("C19") and gen_err is None
     ctx.trusted_base += [
@@ -539,7 +631,10 @@ def run(ctx):
             continue
         for c in o["crash"][:3]:
             problems.append(("mup-crash", "recovery after a crash does not return the in-memory monitor: " + c,
-                             {"cmd": "h_mup sync %d %d %d %d" % (seed, mp, 14 if quick else 40, 130 if quick else 400), "line": c}))
+                             {"cmd": "h_mup sync %d %d %d %d 0 1" % (seed, mp, 14 if quick else 40, 130 if quick else 400), "line": c}))
+        for pr_ in judge_refused(o)[:2]:
+            problems.append(("mup-refused", pr_, {"cmd": "h_mup sync %d %d %d %d 0 1" % (seed, mp, 14 if quick else 40, 130 if quick else 400),
+                                                 "calls": o["calls"][-12:], "marks": o["marks"], "final": o["final"]}))
         if int(o["summary"].get("stray_ops", "0")) != 0:
             problems.append(("mup", "store operations outside any persister call", {"summary": o["summary"]}))
         exprs.append("trace %d {| durable := []; limbo := [] |} %s" % (mp, coq_calls(o["calls"])))
@@ -547,14 +642,14 @@ def run(ctx):
             f = o["faults"][sid]
             if f.get("ok") != "1":
                 problems.append(("mup-fault", "with failing store operations %s (operation indices) the persister loses a reported update or cleans up an update recovery needs: %s" % (f.get("fails"), f["line"]),
-                                 {"cmd": "h_mup sync %d %d %d %d %d" % (seed, mp, 14 if quick else 40, 130 if quick else 400, 36 if quick else 90), "line": f["line"],
+                                 {"cmd": "h_mup sync %d %d %d %d %d 1" % (seed, mp, 14 if quick else 40, 130 if quick else 400, 36 if quick else 90), "line": f["line"],
                                   "attempts": o["fattempts"].get(sid)}))
     # fault scripts: per-call outcomes for the model
     fault_meta = []
     for mp, seed, rc, o in mups:
         if rc != 0 or o["summary"] is None:
             continue
-        calls = [c for c in o["calls"] if not c.startswith("A")]
+        calls = [c for c in o["calls"] if not c.startswith("A") and not c.startswith("E")]
         for sid in sorted(o["fattempts"]):
             per_call = o["fattempts"][sid]
             sels, applied = sels_of_attempts(per_call)
@@ -581,16 +676,21 @@ def run(ctx):
                                       "issued": scen[sid]["ops"], "completion_order": scen[sid]["order"], "observed_steps": scen[sid]["steps"]}))
                 aseq_meta.append((ver, seed, sid, scen[sid]))
                 exprs_aseq.append(aseq_coq(scen[sid]))
+    if aseq_meta and not any(st["res"] == "err" for m in aseq_meta for st in m[3]["steps"]):
+        problems.append(("fs-async", "fault injection ineffective: no sabotaged FilesystemStore operation failed", {}))
     amt_runs = []
+    amt_errs = 0
     for ver in ("v1", "v2"):
         for j in range(2 if quick else 8):
             seed = rng.below(2 ** 31)
-            rc, nops_a, pr = fs_amt(ctx, ver, seed, 6, 20 if quick else 30, 3)
+            sab = (j % 2 == 1)
+            rc, nops_a, pr = fs_amt(ctx, ver, seed, 6, 20 if quick else 30, 3 if not sab else 2, sab)
+            amt_errs += fs_amt.last_err
             amt_runs.append((ver, seed, nops_a, len(pr)))
             if rc != 0:
                 pr.append("h_fsstore amt exited %d" % rc)
             for p_ in pr[:2]:
-                problems.append(("fs-async-mt", p_, {"cmd": "h_fsstore amt %s %d 6 %d 3 <dir>" % (ver, seed, 20 if quick else 30)}))
+                problems.append(("fs-async-mt", p_, {"cmd": "h_fsstore amt %s %d 6 %d %d <dir> %d" % (ver, seed, 20 if quick else 30, 2 if sab else 3, 1 if sab else 0)}))
     n_base_exprs = len(exprs)
     exprs = exprs + exprs_fault + exprs_aseq
     # ---- model side (one batch)
@@ -712,6 +812,10 @@ def run(ctx):
         "fs_concurrent_runs": [{"store": v, "seed": s, "threads": t, "ops": n, "problems": p} for v, s, t, n, p in mt_runs],
         "fs_async_scenarios": len(aseq_meta), "fs_async_mt_runs": [{"store": v, "seed": sd, "ops": n, "problems": p_} for v, sd, n, p_ in amt_runs],
         "mup_fault_scripts": sum(len(o["faults"]) for _, _, _, o in mups),
+        "mup_refused_update_scenarios": sum(1 for _, _, _, o in mups if "refused-update" in o["marks"]),
+        "fs_async_failed_ops": {"writes": sum(1 for m in aseq_meta for st in m[3]["steps"] if st["res"] == "err" and m[3]["ops"][st["op"]][0] == "W"),
+                                "removes": sum(1 for m in aseq_meta for st in m[3]["steps"] if st["res"] == "err" and m[3]["ops"][st["op"]][0] == "D"),
+                                "multi_thread": amt_errs, "immutable_files_supported": ASEQ_CAP["immutable"]},
         "mup_runs": [{"maximum_pending_updates": mp, "seed": s, "summary": o["summary"]} for mp, s, _, o in mups],
         "evaluations": nseq_ops + nmt_ops + nrec + sum(len(m[3]["order"]) for m in aseq_meta) + sum(n for _, _, n, _ in amt_runs) + 2 * sum(len(o["faults"]) for _, _, _, o in mups),
         "distinct_nontrivial": nrec + len(set((v, tuple(m[2])) for v, m in zip([x[0] for x in metas], metas))) + len(mt_runs),
@@ -725,7 +829,7 @@ def run(ctx):
     # ---- decide
     broken = []
     if not proved:
-        broken.append({"obligation": "Coq proof of Props/C19.v", "detail": getattr(ctx, "proof_failure", None)})
+        broken.append({"obligation": "Coq proof of Props/C19.v" if gen_err is None else "structural pin", "detail": gen_err or getattr(ctx, "proof_failure", None)})
     if model_err or not okm:
         broken.append({"correspondence": "model could not be evaluated", "detail": model_err or outm[-1500:]})
     if disagreements:
